@@ -447,6 +447,7 @@ where
                 vassert!(d.index(id) == probe && c.index(ic) == probe, "VF:collapse.clone_from_read");
             }
             vassert!(d.index(i0) == s[0] && d.index(i1) == s[1], "VF:collapse.clone_from_old_reads");
+            vassert!(used(&d) == used(&c), "VF:collapse.clone_from_used_bytes_differ_from_clone");
         }
         _ => {
             crate::section("VF:collapse.clone");
@@ -559,7 +560,7 @@ fn run_sio(v: &[u64]) {
     vassert!(i0 == (0, x.len()) && i1 == (x.len(), all.len()), "VF:slice_opt.index");
     // C20: the bulk forms (IndexContainer::extend) and the element-wise forms (read items) are interchangeable
     let mut twin = R::default();
-    let mut feed = |t: &mut R, w: &[usize], form: u64| match form {
+    let feed = |t: &mut R, w: &[usize], form: u64| match form {
         0 => t.push(w),
         1 => t.push(w.to_vec()),
         _ => {
@@ -686,7 +687,7 @@ pub fn harnesses() -> Vec<H> {
             bound: "OptionRegion<StringRegion>, ResultRegion<StringRegion, MirrorRegion<u8>>, TupleABRegion<StringRegion, MirrorRegion<u64>>: two pushes, each variant, owned and reference forms, twin fed owned forms", kani: false },
         H { name: "columns_ragged", props: &["C12", "C01", "C02", "C13", "C20"], nargs: 6, pre: pre_cols, doms: doms_cols, run: run_cols, panic_ok: true,
             bound: "ColumnsRegion<MirrorRegion<u8>> with IndexOptimized and Vec<usize> offsets: three rows of width 0..3 in any order, eight input forms (slice, Vec, &Vec, PushIter over an exact and over an inexact-size_hint iterator, read item of another region, [T;N], &[T;N]), compared with a twin fed slices, rotated over the rows, all rows re-read after every push, out-of-bounds probe at any position", kani: false },
-        H { name: "collapse_boundaries", props: &["C11", "C08", "C09", "C10"], nargs: 5, pre: pre_collapse, doms: doms_collapse, run: run_collapse, panic_ok: false,
+        H { name: "collapse_boundaries", props: &["C11", "C08", "C09", "C10", "C18", "C20"], nargs: 5, pre: pre_collapse, doms: doms_collapse, run: run_collapse, panic_ok: false,
             bound: "CollapseSequence at the top, over ConsecutiveIndexPairs, inside a tuple and inside a slice region: three strings over a 3-value domain; boundaries none / clear / merge_regions / clone / clone_from into a pre-filled destination / reserve_regions between pushes; and over an encoded HuffmanContainer fed decoded read items (prefix / extension / empty)", kani: false },
     ]
 }
